@@ -463,7 +463,24 @@ def _call_position(stmt, is_target):
             return t.left, 'hoist'
     if isinstance(stmt, ast.For) and hit(stmt.iter):
         return stmt.iter, 'hoist'
+    # f(.., helper(..), ..) as the whole value of a simple statement, everything evaluated before the helper call being pure
+    # (names, attribute chains, constants): hoisting the call in front of the statement keeps the order of effects
+    outer = stmt.value if isinstance(stmt, (ast.Expr, ast.Assign, ast.AnnAssign, ast.Return)) else None
+    if isinstance(outer, ast.Call) and _pure(outer.func):
+        for a in outer.args:
+            if hit(a):
+                return a, 'hoist'
+            if not _pure(a):
+                break
     return None, None
+
+
+def _pure(e) -> bool:
+    if isinstance(e, ast.Constant):
+        return True
+    while isinstance(e, ast.Attribute):
+        e = e.value
+    return isinstance(e, ast.Name)
 
 
 def _replace_expr(stmt, old, new):
@@ -543,7 +560,7 @@ def inline_new_helpers(repo, inv: dict, log: list) -> bool:
                     def is_target(e, name=fn.name, static=not is_method, cname=container.name):
                         return isinstance(e.func, ast.Attribute) and e.func.attr == name and \
                             isinstance(e.func.value, ast.Name) and \
-                            (e.func.value.id == 'self' or (static and e.func.value.id == cname))
+                            (e.func.value.id == 'self' or (static and e.func.value.id in (cname, 'cls')))
                 else:
                     callers = [f.node for f in repo.funcs.values() if f.module is mod]
 
